@@ -14,10 +14,21 @@ pub mod worker;
 use plan::PlanEventKind;
 use rt::{with, EvKind, ExtEvent};
 
-pub(crate) fn fire_event(ev: ExtEvent) {
+pub fn fire_event(ev: ExtEvent) {
     match ev.kind {
         EvKind::ProcExit(pid) => proc::fire_exit(pid),
         EvKind::FsDeliver { watcher, .. } => vfs::deliver(watcher),
+        EvKind::Timer(id) => {
+            let w = with(|rt| {
+                rt.ev("timer-fired", &format!("k{}", id));
+                rt.probe("timer-fired");
+                rt.timers[id].0 = true;
+                rt.timers[id].1.take()
+            });
+            if let Some(w) = w {
+                w.wake();
+            }
+        }
         EvKind::Plan(i) => {
             let kind = with(|rt| rt.fire_plan_event(i));
             match kind {
@@ -60,9 +71,14 @@ pub async fn blocking_op<T>(site: &'static str, path: &std::path::Path, f: impl 
         rt.fault(&format!("fs.{}", site))
     });
     if let Some(k) = fault {
-        let _ = k;
-        with(|rt| rt.evv("fs-call", &format!("{} {} -> EIO(injected)", site, trace::esc_path(path))));
-        return Err(std::io::Error::from_raw_os_error(libc::EIO));
+        let errno = match k.as_str() {
+            "eacces" => libc::EACCES,
+            "eperm" => libc::EPERM,
+            "enospc" => libc::ENOSPC,
+            _ => libc::EIO,
+        };
+        with(|rt| rt.evv("fs-call", &format!("{} {} -> errno {}(injected)", site, trace::esc_path(path), errno)));
+        return Err(std::io::Error::from_raw_os_error(errno));
     }
     let r = f();
     with(|rt| {
@@ -246,4 +262,44 @@ pub unsafe extern "C" fn getrandom(buf: *mut libc::c_void, buflen: libc::size_t,
         *out.add(i) = (z >> ((i % 8) * 8)) as u8;
     }
     buflen as libc::ssize_t
+}
+
+// ------------------------------------------------------------------ timers
+
+/// A timer in simulated time: durations are abstract, the scheduler decides when it expires
+/// (a machine can always be slow enough for any timeout to fire first).
+pub struct Timer {
+    id: usize,
+}
+
+pub fn timer(label: &str) -> Timer {
+    with(|rt| {
+        let id = rt.timers.len();
+        rt.timers.push((false, None));
+        rt.add_event(EvKind::Timer(id));
+        rt.evv("timer-new", &format!("k{} {}", id, label));
+        Timer { id }
+    })
+}
+
+impl std::future::Future for Timer {
+    type Output = ();
+    fn poll(self: std::pin::Pin<&mut Self>, cx: &mut std::task::Context<'_>) -> std::task::Poll<()> {
+        with(|rt| {
+            if rt.timers[self.id].0 {
+                std::task::Poll::Ready(())
+            } else {
+                rt.timers[self.id].1 = Some(cx.waker().clone());
+                rt.note_parked("timer");
+                std::task::Poll::Pending
+            }
+        })
+    }
+}
+
+impl Drop for Timer {
+    fn drop(&mut self) {
+        let id = self.id;
+        let _ = rt::try_with(|rt| rt.events.retain(|e| !matches!(e.kind, EvKind::Timer(k) if k == id)));
+    }
 }
